@@ -1,7 +1,8 @@
 (** C11 - the results of [BpProofs.v] restated over one bundle of laws ([bp_laws]): every theorem is
     "for all carriers and operations satisfying the commutative-ring / module laws".             *)
 From Coq Require Import List Ring ZArith Bool Lia.
-From CB Require Import Crypto.BpAlg Crypto.Ipa Crypto.RangeProof Crypto.SetProof Crypto.RangeStmt Crypto.BpProofs.
+From Coq Require Import InitialRing.
+From CB Require Import Crypto.BpAlg Crypto.Ipa Crypto.RangeProof Crypto.SetProof Crypto.RangeStmt Crypto.BpProofs Crypto.BpExtras.
 Import ListNotations.
 
 Record bp_laws (Ops : bp_ops) : Prop := mkLaws {
@@ -113,6 +114,30 @@ Section Packaged.
     destruct L. intros set v vr invs Gs Hs B Bt sL sR at_ st t1t t2t y yi z x w us Hin.
     destruct (nonmem_prove Ops set v vr invs Gs Hs B Bt sL sR at_ st t1t t2t y yi z x w us) eqn:E; [|reflexivity].
     exfalso. eapply (proj1 (nonmem_prove_some_iff Ops l_feqb0 set v vr invs Gs Hs B Bt sL sR at_ st t1t t2t y yi z x w us)); eauto.
+  Qed.
+  (** [verify_scalars] as coded (iterative, index arithmetic) computes the recursive [svec] *)
+  Theorem svec_iter_eq_svec_p : forall us, inv_ok Ops us -> svec_iter Ops us = svec Ops us.
+  Proof. destruct L. intros. apply svec_iter_eq_svec; assumption. Qed.
+
+  (** canonical ring homomorphism Z -> F (what [scalar_from_u64] is) *)
+  Definition fofZ_ (v : Z) : o_F Ops := gen_phiZ (o_f0 Ops) (o_f1 Ops) (o_fadd Ops) (o_fmul Ops) (o_fopp Ops) v.
+
+  Theorem fval_canonical_p : forall n v, fval Ops n v = fofZ_ (v mod 2 ^ Z.of_nat n).
+  Proof. destruct L. intros. apply fval_canonical; assumption. Qed.
+
+  Theorem range_complete_in_range_p : forall n vs rs Gs Hs B Bt sL sR at_ st t1t t2t y yi z x w us,
+    Forall (fun v => (0 <= v < 2 ^ Z.of_nat n)%Z) vs ->
+    length rs = length vs ->
+    length Gs = Nat.pow 2 (length us) -> length Gs = n * length vs -> length Hs = length Gs ->
+    length sL = length Gs -> length sR = length Gs ->
+    o_fmul Ops y yi = o_f1 Ops -> inv_ok Ops us ->
+    range_verdict Ops n (vzip (commit Ops B Bt) (map fofZ_ vs) rs) Gs Hs B Bt
+      (range_prove Ops n vs rs Gs Hs B Bt sL sR at_ st t1t t2t y yi z x w us) y yi z x w us = VOk.
+  Proof.
+    intros n vs rs Gs Hs B Bt sL sR at_ st t1t t2t y yi z x w us Hr. intros.
+    replace (map fofZ_ vs) with (map (fval Ops n) vs); [apply range_complete_p; assumption|].
+    apply map_ext_in. intros v Hv. rewrite Forall_forall in Hr. rewrite fval_canonical_p.
+    rewrite Z.mod_small by (apply Hr; exact Hv). reflexivity.
   Qed.
 End Packaged.
 
